@@ -219,11 +219,13 @@ def check_c09(v):
             # non-vacuity: HMAC output exists, every constant-time comparison sits between H and C data
             if rp["nsrch"] == 0:
                 raise v.Inconclusive("no HMAC output found in target %s (extraction lost the source)" % target)
-            if rp["unreached"] and not rp["leaks"]:
-                sites = [g["sanitizers"][i - 1]["pos"] for i in rp["unreached"]]
+            # (xor sites elsewhere in the code - hashing, encoding - are candidates only; library calls must be reached)
+            hard = [i for i in rp["unreached"] if g["sanitizers"][i - 1]["kind"] != "xor-fold"]
+            if hard and not rp["leaks"]:
+                sites = [g["sanitizers"][i - 1]["pos"] for i in hard]
                 raise v.Inconclusive("constant-time comparison(s) not reached by both taints in %s: %s" % (target, sites))
-            if rp["nsan"] == 0 and not rp["leaks"]:
-                raise v.Inconclusive("no constant-time comparison site found in target %s although HMAC output reaches caller-visible code" % target)
+            if not rp["reached"] and not rp["leaks"]:
+                raise v.Inconclusive("no constant-time comparison between HMAC-derived data and submitted text found in target %s" % target)
             r.nontrivial += sum(1 for c in g["compares"]) + rp["nsan"]
             for i in rp["leaks"]:
                 c = g["compares"][i - 1]
@@ -399,17 +401,22 @@ def install(v):
     C = v.CHECKS
     R = v.RULES
 
-    C["C01"] = v.chk_lib(per_shard=600)
-    C["C02"] = v.chk_lib(per_shard=500)
-    C["C03"] = v.chk_lib(per_shard=400)
-    C["C04"] = v.chk_lib(per_shard=400)
-    C["C07"] = v.chk_lib(per_shard=500)
-    C["C13"] = v.chk_lib(per_shard=400)
+    LEM = ("lemmas", "Lemmas.tla", "Lemmas.cfg", {"workers": 1})
+    WH = ("window-hotp", "WindowMC.tla", "Window_hotp.cfg", {"workers": 4})
+    WT = ("window-totp", "WindowMC.tla", "Window_totp.cfg", {"workers": 4})
+    WNS = ("window-neg-signed", "WindowMC.tla", "Window_Neg_signed.cfg", {"workers": 2, "expect_violation": "Invariant Inv is violated"})
+    WNL = ("window-neg-noskewlimit", "WindowMC.tla", "Window_Neg_noskewlimit.cfg", {"workers": 2, "expect_violation": "Invariant Inv is violated"})
+    C["C01"] = v.chk_lib(mcs=(LEM,), per_shard=600)
+    C["C02"] = v.chk_lib(mcs=(LEM,), per_shard=500)
+    C["C03"] = v.chk_lib(mcs=(WH, WNS), per_shard=400)
+    C["C04"] = v.chk_lib(mcs=(WT, WNL), per_shard=400)
+    C["C07"] = v.chk_lib(mcs=(LEM,), per_shard=500)
+    C["C13"] = v.chk_lib(mcs=(WH, WT), per_shard=400)
 
-    C["C05"] = v.chk_lib(per_shard=300)
-    C["C06"] = v.chk_lib(per_shard=300)
-    C["C14"] = v.chk_lib(per_shard=3000)
-    C["C15"] = v.chk_lib(per_shard=600)
+    C["C05"] = v.chk_lib(mcs=(LEM,), per_shard=300)
+    C["C06"] = v.chk_lib(mcs=(LEM,), per_shard=300)
+    C["C14"] = v.chk_lib(mcs=(LEM,), per_shard=3000)
+    C["C15"] = v.chk_lib(mcs=(LEM,), per_shard=600)
 
     C["C18"] = check_rest(v, "C18")
     C["C19"] = check_rest(v, "C19")
@@ -421,11 +428,11 @@ def install(v):
     v.REPLAYS["C09"] = lambda r, rp: (check_c09(v)(r), bool(r.violations))[1]
     C["C11"] = check_c11(v)
     v.REPLAYS["C11"] = replay_c11(v)
-    C["C17"] = v.chk_lib(per_shard=500)
-    C["C16"] = v.chk_lib(per_shard=600)
-    C["C08"] = v.chk_lib(per_shard=400)
-    C["C12"] = v.chk_lib(per_shard=300)
-    C["C10"] = v.chk_lib(per_shard=1200)
+    C["C17"] = v.chk_lib(mcs=(LEM,), per_shard=500)
+    C["C16"] = v.chk_lib(mcs=(LEM,), per_shard=600)
+    C["C08"] = v.chk_lib(mcs=(LEM,), per_shard=400)
+    C["C12"] = v.chk_lib(mcs=(LEM,), per_shard=300)
+    C["C10"] = v.chk_lib(mcs=(LEM,), per_shard=1200)
 
     common = (" Every event is a distinct scenario (distinct abstract key, seeded); an event is non-trivial "
               "(decisive) when the specification demands one definite outcome for it (classes value / error / "
